@@ -5,6 +5,7 @@ package main
 import (
 	"encoding/json"
 	"fmt"
+	"github.com/ipld/go-ipld-prime/codec/dagcbor"
 	"math/rand"
 
 	"github.com/ipld/go-ipld-prime"
@@ -59,6 +60,47 @@ func (s stmt) isNegatedLeaf() bool {
 		return false
 	}
 	return s.S.isLeaf() || s.S.isNegatedLeaf()
+}
+
+// hasIntegralFloat: some literal of the statement is a finite float with an integral value (Values: ["float", 2h, "fin"], h even).
+func (s stmt) hasIntegralFloat() bool {
+	var inVal func(v any) bool
+	inVal = func(v any) bool {
+		a, ok := v.([]any)
+		if !ok || len(a) == 0 {
+			return false
+		}
+		if k, _ := a[0].(string); k == "float" && len(a) == 3 {
+			h, _ := a[1].(float64)
+			cls, _ := a[2].(string)
+			return cls == "fin" && int64(h)%2 == 0
+		}
+		for _, x := range a[1:] {
+			if l, ok := x.([]any); ok {
+				for _, e := range l {
+					if inVal(e) {
+						return true
+					}
+					if p, ok := e.([]any); ok && len(p) == 2 && inVal(p[1]) {
+						return true
+					}
+				}
+			}
+		}
+		return false
+	}
+	if inVal(anySlice(s.Val)) {
+		return true
+	}
+	if s.S != nil && s.S.hasIntegralFloat() {
+		return true
+	}
+	for _, c := range s.SS {
+		if c.hasIntegralFloat() {
+			return true
+		}
+	}
+	return false
 }
 
 // node builds the wire form of the statement.
@@ -614,12 +656,32 @@ func init() {
 				continue
 			}
 			rep.nontrivial(string(raw))
-			for di, d := range data {
-				rep.Evaluations++
-				if a, b := matchReal(pc, d), matchReal(back, d); a != b {
-					rep.violation(map[string]any{"st": st, "data": jsonOf(data[di])}, a.String(), b.String(),
-						"a constructed policy matches differently after an IPLD round trip")
-					break
+			// the round trip as it happens in practice: through the bytes of a codec (DAG-CBOR re-orders map keys)
+			variants := map[string]policy.Policy{"ToIPLD/FromIPLD": back}
+			if b, err := ipld.Encode(n, dagcbor.Encode); err == nil {
+				if n2, err := ipld.Decode(b, dagcbor.Decode); err == nil {
+					if p2, err := policy.FromIPLD(n2); err == nil {
+						variants["DAG-CBOR bytes"] = p2
+					} else {
+						rep.violation(json.RawMessage(raw), "round trip succeeds", err.Error(), "FromIPLD(decode(encode(ToIPLD(constructed)))) through DAG-CBOR")
+					}
+				}
+			}
+			// (DAG-JSON cannot carry a float with an integral value: go-ipld-prime writes 1.0 as 1 - the known finding
+			// DagJsonIntegralFloat of C07, outside /repo; such statements take the DAG-CBOR route only)
+			if b, err := ipld.Encode(n, dagjson.Encode); err == nil && !st.hasIntegralFloat() {
+				if p2, err := policy.FromDagJson(string(b)); err == nil {
+					variants["DAG-JSON text"] = p2
+				}
+			}
+			for name, pv := range variants {
+				for di, d := range data {
+					rep.Evaluations++
+					if a, b := matchReal(pc, d), matchReal(pv, d); a != b {
+						rep.violation(map[string]any{"st": st, "data": jsonOf(data[di]), "via": name}, a.String(), b.String(),
+							"a constructed policy matches differently after an IPLD round trip ("+name+")")
+						break
+					}
 				}
 			}
 			if pc.String() != back.String() {
